@@ -14,7 +14,7 @@ From RU Require Import Base.Prelude Base.Utf8 Model.HostT Model.UrlRecord Model.
   Proofs.C03_ReachParts Proofs.C03_Reach Proofs.C03_ReachFile Proofs.C03_ReachHost Proofs.C03_ReachHist
   Model.FilePath Proofs.C06_Path Proofs.C06_Host Proofs.C05_Enc Proofs.C03_ReachAll Proofs.C03_Reachability
   Proofs.C03_ReachAscii Proofs.C03_ReachEx Proofs.C03_Views Proofs.C03_PortInv Proofs.C03_PortParse Proofs.C03_AuthEnd Proofs.C03_ReachKnown
-  Proofs.C05_AuthOfs Proofs.C02_Hist Proofs.C02_SetHostCanon Proofs.C02_Reach3 Proofs.C03_ParseFront Proofs.C03_ReachJoin Proofs.C03_ReachFull.
+  Proofs.C05_AuthOfs Proofs.C02_Hist Proofs.C02_SetHostCanon Proofs.C02_Reach3 Proofs.C03_ParseFront Proofs.C03_ReachJoin Proofs.C03_ReachFull Proofs.C03_ReachFullEx.
 Open Scope string_scope.
 Open Scope N_scope.
 Open Scope list_scope.
@@ -415,7 +415,8 @@ Qed.
    Url::query_pairs_mut sessions; results in the drive-letter class are not continued.
    known_step2 and excl03k differ in ONE class: a path_segments_mut session on an authority-less record without the
    "/." marker whose result starts with "//" (in excl03k, not in known_step2).  SessNoSS dbg (Proofs/C03_ReachFull.v)
-   says there is no such session; it is a hypothesis of the partial theorem.  Everything else is proved: the host half
+   says there is no such session on a record of a non-special scheme; it is a hypothesis of the two partial theorems
+   and is proved in Proofs/C03_SessNoSS.v (C03_sessions_no_2slash), which gives C03_reachability_full.  The host half
    of excl03k (an empty host in front of a stored port) is refused by quirks::set_host / set_hostname themselves and
    cannot come out of Url::set_host with a non-empty argument or set_ip_host (host_nonempty of C02: Host::parse never
    returns the empty host, Host::parse_opaque only for the empty text); is_cbb = is_opaque_b; F-C02-8 = path_bad
@@ -456,6 +457,75 @@ Check C03_reachability_full_partial : forall dbg hp hpo hd, HostWf hp hpo hd -> 
   (wf_b u = true /\ host_text_ok u) /\ base_ok u = true /\ auth_end_ok u /\ PN u.
 Print Assumptions C03_reachability_full_partial.
 
+(* a path_segments_mut session (any sequence of clear / pop / pop_if_empty / push / extend with &str arguments) on an
+   authority-less record of a non-special scheme whose path starts with '/' and that carries no "/." marker never
+   yields a path that starts with "//": '/' is appended only behind a path longer than "/", a '/' inside a segment is
+   written %2F, and the dot-segment handling only truncates or appends '/' behind a text not ending in '/' *)
+Theorem C03_sessions_no_2slash : forall dbg, SessNoSS dbg.
+Proof. exact sess_no_ss. Qed.
+Check C03_sessions_no_2slash : forall dbg u ops u', wf_b u = true -> C06_PathNoAuth.noauth_slash_path u ->
+  st_is_special (scheme_type_of (b_scheme u)) = false -> Forall C06_Segments.psm_op_usv ops ->
+  path_segments_session dbg u ops = Some (u', SOk) -> C06_HostNone.path_starts_with_2slash u' = false.
+Print Assumptions C03_sessions_no_2slash.
+
+(* EVERY record of C02's quantifier: the corrected full statement *)
+Theorem C03_reachability_full : C03_reachability_full_statement2.
+Proof.
+  intros dbg hp hpo hd HW HNE HIPW HOK HIP u R.
+  destruct (reach3_inv_all dbg hp hpo hd HW HNE HIPW HOK HIP u R) as [(K & A & P & E) _].
+  split; [exact K|]. split; [exact (as_base_ok u (proj1 K) A)|]. split; [exact (he_auth_end u K E) | exact P].
+Qed.
+Check C03_reachability_full : forall dbg hp hpo hd, HostWf hp hpo hd -> host_nonempty hp hpo -> IpWf hd ->
+  C05_Parser.HostOK hp hpo hd -> C05_Setters.IpOK hd ->
+  forall u, Reachable3 dbg hp hpo hd u ->
+  (wf_b u = true /\ host_text_ok u) /\ base_ok u = true /\ auth_end_ok u /\ PN u.
+Print Assumptions C03_reachability_full.
+
+(* hence the first two sentences of the property text for every record of Reachable3, in both build configurations *)
+Theorem C03_accessors_reachable : forall dbg dbg' hp hpo hd u, HostWf hp hpo hd -> host_nonempty hp hpo -> IpWf hd ->
+  C05_Parser.HostOK hp hpo hd -> C05_Setters.IpOK hd -> Reachable3 dbg hp hpo hd u ->
+  (exists sch un pw hs pth q f,
+    scheme u = Some sch /\ username dbg' u = Some un /\ password dbg' u = Some pw /\ host_str u = Some hs
+    /\ path u = Some pth /\ query dbg' u = Some q /\ fragment dbg' u = Some f
+    /\ ser u =
+       sch ++ (if has_authority_b u then s_css else [58])
+       ++ un ++ (match pw with Some p => 58 :: p | None => [] end)
+       ++ (if has_authority_b u && negb (username_end u =? host_start u) then [64] else [])
+       ++ piece u (host_start u) (host_end u)
+       ++ (match port u with Some p => 58 :: decimal p | None => [] end)
+       ++ (if negb (has_authority_b u) && (path_start u =? scheme_end u + 3) then [47; 46] else [])
+       ++ pth
+       ++ (match q with Some x => 63 :: x | None => [] end)
+       ++ (match f with Some x => 35 :: x | None => [] end))
+  /\ (forall p, exists i, position_index dbg' u p = Some i /\ i <= nlen (ser u))
+  /\ (forall p q i j, (pos_rank p <= pos_rank q)%nat ->
+        position_index dbg' u p = Some i -> position_index dbg' u q = Some j -> i <= j)
+  /\ (forall p q, (pos_rank p <= pos_rank q)%nat -> exists s, index_range dbg' u p q = Some s)
+  /\ (forall p, exists s t, index_to dbg' u p = Some s /\ index_from dbg' u p = Some t /\ s ++ t = ser u)
+  /\ index_range dbg' u BeforeScheme AfterFragment = Some (ser u).
+Proof.
+  intros dbg dbg' hp hpo hd u HW HNE HIPW HOK HIP R.
+  destruct (C03_reachability_full dbg hp hpo hd HW HNE HIPW HOK HIP u R) as [[W _] _].
+  split; [|split; [|split; [|split; [|split]]]].
+  - destruct (C03_concat dbg' u W) as (sch & un & pw & hs & pth & q & f & A1 & A2 & A3 & A4 & A5 & A6 & A7 & A8 & _).
+    exists sch, un, pw, hs, pth, q, f. repeat split; assumption.
+  - intros p. exact (C03_index dbg' u p W).
+  - intros p q i j. exact (C03_monotone dbg' u p q i j W).
+  - exact (proj1 (C03_slices dbg' u W)).
+  - exact (proj1 (proj2 (C03_slices dbg' u W))).
+  - exact (proj2 (proj2 (proj2 (C03_slices dbg' u W)))).
+Qed.
+Print Assumptions C03_accessors_reachable.
+
+(* non-vacuity: host functions meeting the five hypotheses, and a history of Reachable3: parse "a:/p?x=1",
+   query_pairs_mut().append_pair("k", "v w"), path_segments_mut pop / push "" / push "b/c" (-> a:/b%2Fc?...),
+   set_path "/d", join "e" -> "a:/e" *)
+Example C03_reachability_full_inhabited :
+  (HostWf ex_hp3 ex_hp ex_hd2 /\ host_nonempty ex_hp3 ex_hp /\ IpWf ex_hd2
+   /\ C05_Parser.HostOK ex_hp3 ex_hp ex_hd2 /\ C05_Setters.IpOK ex_hd2)
+  /\ reach3_example_stmt.
+Proof. split; [exact ex3_full_hyps | exact reach3_example]. Qed.
+
 (* what separated C03_reachability from "every reachable Url" in the sense of C02 (first formulation, over
    C02_Reach.Reachable with HostWf alone; kept as stated):
    (1) base_ok of a reached base was a premise of reach03a's join          - now an invariant (AS, R4);
@@ -464,8 +534,8 @@ Print Assumptions C03_reachability_full_partial.
        host_nonempty (without it the statement below is false for abstract host functions: a Host::parse that
        returns the empty host for a non-empty text makes set_host("x") on "http://h:81/" leave wf_b);
    (4) for path_segments_mut sessions on an authority-less record excl03 has path_bad, known_step only the marker:
-       SessNoSS, the hypothesis of C03_reachability_full_partial.
-   The corrected statement is C03_reachability_full_statement2 (R5). *)
+       no such session reaches the difference (C03_sessions_no_2slash).
+   The corrected statement is C03_reachability_full_statement2, proved: C03_reachability_full (R5). *)
 Definition C03_reachability_full_statement : Prop :=
   forall dbg hp hpo hd, HostWf hp hpo hd -> forall u, Reachable dbg hp hpo hd u -> wf_b u = true.
 
